@@ -98,12 +98,14 @@ def completeValue (s : Schema) (g : Graph) (vars : Skip.Vars) : Nat → TRef →
     | _, _ => .null
 end
 
-/-- operation choice: the named operation, or the only one when no name is given; otherwise none -/
+/-- operation choice (GraphQL's GetOperation): the named operation, or the only one when no name is given;
+otherwise none — no name and several operations is ambiguous, also when one of them has no name (such a document
+is not valid: LoneAnonymousOperation) -/
 def chooseOp (ops : List Op) (name : String) : Option Op :=
   if name.isEmpty then
     (match ops with
      | [o] => some o
-     | _ => ops.find? (fun o => o.name == ""))
+     | _ => none)
   else ops.find? (fun o => o.name == name)
 
 def execute (s : Schema) (g : Graph) (vars : Skip.Vars) (ops : List Op) (opName : String) (rootNode : Nat)
